@@ -3,7 +3,14 @@ package main
 import (
 	"encoding/json"
 	"fmt"
+	"go/types"
 	"os"
+	"os/exec"
+	"path/filepath"
+	"regexp"
+	"strings"
+
+	"golang.org/x/tools/go/ssa"
 )
 
 type ReplayResult struct {
@@ -14,9 +21,237 @@ type ReplayResult struct {
 	Note       string `json:"note,omitempty"`
 }
 
-// tryReplay turns a model into a failing input of the real code where a builder exists.
+// replaySpec describes a free function whose parameters and results are all scalars (integers,
+// booleans) of builtin types or of named types of its own package: a solver model of a failed
+// postcondition can then be run on the real code by an injected in-package test.
+type replaySpec struct {
+	FuncName   string   // Go identifier in its package
+	PkgDir     string   // absolute directory of the package
+	PkgName    string   // package clause
+	ModuleDir  string   // directory containing go.mod
+	ParamTerms []string // SMT terms of the parameters
+	ParamTypes []string // Go type expressions (in-package spelling)
+	ParamBool  []bool
+	ResTerms   []string
+	ResBool    []bool
+	ReqTerms   []string // SMT terms of the preconditions at entry
+}
+
+func scalarGoType(t types.Type, own *types.Package) (string, bool, bool) {
+	b, ok := t.Underlying().(*types.Basic)
+	if !ok {
+		return "", false, false
+	}
+	isBool := b.Info()&types.IsBoolean != 0
+	if !isBool && b.Info()&types.IsInteger == 0 {
+		return "", false, false
+	}
+	switch n := types.Unalias(t).(type) {
+	case *types.Basic:
+		return n.Name(), isBool, true
+	case *types.Named:
+		if n.Obj().Pkg() == own {
+			return n.Obj().Name(), isBool, true
+		}
+	}
+	return "", false, false
+}
+
+func scalarReplaySpec(fn *ssa.Function, params []Term, results []Term, P *Program) *replaySpec {
+	if fn.Signature.Recv() != nil || fn.Parent() != nil || fn.Pkg == nil || fn.TypeParams().Len() > 0 || len(results) == 0 || len(params) != len(fn.Params) {
+		return nil
+	}
+	own := fn.Pkg.Pkg
+	rs := &replaySpec{FuncName: fn.Name(), PkgName: own.Name()}
+	for i, p := range fn.Params {
+		gt, isBool, ok := scalarGoType(p.Type(), own)
+		if !ok {
+			return nil
+		}
+		rs.ParamTerms = append(rs.ParamTerms, params[i].S)
+		rs.ParamTypes = append(rs.ParamTypes, gt)
+		rs.ParamBool = append(rs.ParamBool, isBool)
+	}
+	rt := fn.Signature.Results()
+	if rt.Len() != len(results) {
+		return nil
+	}
+	for i := 0; i < rt.Len(); i++ {
+		_, isBool, ok := scalarGoType(rt.At(i).Type(), own)
+		if !ok {
+			return nil
+		}
+		rs.ResTerms = append(rs.ResTerms, results[i].S)
+		rs.ResBool = append(rs.ResBool, isBool)
+	}
+	pkg := P.ByPath[own.Path()]
+	if pkg == nil || len(pkg.GoFiles) == 0 {
+		return nil
+	}
+	rs.PkgDir = filepath.Dir(pkg.GoFiles[0])
+	d := rs.PkgDir
+	for d != "/" {
+		if _, err := os.Stat(filepath.Join(d, "go.mod")); err == nil {
+			rs.ModuleDir = d
+			break
+		}
+		d = filepath.Dir(d)
+	}
+	if rs.ModuleDir == "" {
+		return nil
+	}
+	return rs
+}
+
+var modelValRe = regexp.MustCompile(`(?s)\(define-fun\s+(\S+)\s+\(\)\s+(Int|Bool)\s+(\(-\s*\d+\)|-?\d+|true|false)\)`)
+
+// tryReplay runs the solver's model of a failed postcondition of a scalar free function on the
+// real code: the parameters of the model are passed to the real function by an injected in-package
+// test; the values it returns are then fixed in the stored query — if the negated postcondition is
+// still satisfiable, the real input/output pair violates the postcondition.
 func tryReplay(prop string, o *Obligation) *ReplayResult {
-	return nil
+	rs := o.replay
+	if rs == nil || o.Res.Verdict == "unsat" {
+		return nil
+	}
+	dir := mkWorkDir()
+	defer os.RemoveAll(dir)
+	model := o.Res.Model
+	candidate := ""
+	if o.Res.Verdict != "sat" {
+		// the solvers could not decide the full query (quantified assumptions): a model of its
+		// quantifier-free part is only a candidate — it counts for nothing unless the real code,
+		// run on it, returns values that falsify the postcondition (checked below without any
+		// assumption)
+		var b strings.Builder
+		for _, l := range strings.Split(o.Query, "\n") {
+			if strings.HasPrefix(l, "(assert ") && (strings.Contains(l, "(forall ") || strings.Contains(l, "(exists ")) {
+				continue
+			}
+			b.WriteString(l)
+			b.WriteByte('\n')
+		}
+		r := solve(&Query{Name: "model-candidate", Text: b.String()}, dir, 15, nil)
+		if r.Verdict != "sat" {
+			return nil
+		}
+		model = r.Model
+		candidate = " (candidate model of the quantifier-free part of the query)"
+	}
+	vals := map[string]string{}
+	for _, m := range modelValRe.FindAllStringSubmatch(model, -1) {
+		vals[m[1]] = m[3]
+	}
+	goLit := func(v string, isBool bool) string {
+		v = strings.TrimSpace(v)
+		if isBool {
+			return v
+		}
+		if strings.HasPrefix(v, "(-") {
+			return "-" + strings.TrimSpace(strings.Trim(v[2:], " )"))
+		}
+		return v
+	}
+	var args, inputs []string
+	for i, pt := range rs.ParamTerms {
+		v, ok := vals[pt]
+		if !ok {
+			// a parameter the model does not mention is irrelevant to the failure: zero
+			v = "0"
+			if rs.ParamBool[i] {
+				v = "false"
+			}
+		}
+		lit := goLit(v, rs.ParamBool[i])
+		if rs.ParamBool[i] {
+			args = append(args, lit)
+		} else {
+			args = append(args, fmt.Sprintf("%s(%s)", rs.ParamTypes[i], lit))
+		}
+		inputs = append(inputs, fmt.Sprintf("%s = %s", pt, v))
+	}
+	var lhs, prints []string
+	for i := range rs.ResTerms {
+		lhs = append(lhs, fmt.Sprintf("r%d", i))
+		if rs.ResBool[i] {
+			prints = append(prints, fmt.Sprintf("fmt.Sprintf(\"%%t\", r%d)", i))
+		} else {
+			prints = append(prints, fmt.Sprintf("fmt.Sprintf(\"%%d\", r%d)", i))
+		}
+	}
+	test := fmt.Sprintf("package %s\n\nimport (\n\t\"fmt\"\n\t\"strings\"\n\t\"testing\"\n)\n\n// Generated by gvc from a solver model of a failed postcondition.\nfunc TestVerifModelReplay(t *testing.T) {\n\t%s := %s(%s)\n\tfmt.Println(\"VERIF-RESULT \" + strings.Join([]string{%s}, \"|\"))\n}\n",
+		rs.PkgName, strings.Join(lhs, ", "), rs.FuncName, strings.Join(args, ", "), strings.Join(prints, ", "))
+	tf := filepath.Join(dir, "zz_verif_model_replay_test.go")
+	_ = os.WriteFile(tf, []byte(test), 0o644)
+	ov := filepath.Join(dir, "ov.json")
+	ovj, _ := json.Marshal(map[string]any{"Replace": map[string]string{filepath.Join(rs.PkgDir, "zz_verif_model_replay_test.go"): tf}})
+	_ = os.WriteFile(ov, ovj, 0o644)
+	rel, _ := filepath.Rel(rs.ModuleDir, rs.PkgDir)
+	cmd := exec.Command("go", "test", "-overlay", ov, "-vet=off", "-v", "-count=1", "-timeout", "60s", "-run", "^TestVerifModelReplay$", "./"+rel)
+	cmd.Dir = rs.ModuleDir
+	cmd.Env = append(os.Environ(), "GOFLAGS=-mod=mod", "GOPROXY=off", "GOSUMDB=off", "GOTOOLCHAIN=local")
+	outB, _ := cmd.CombinedOutput()
+	out := string(outB)
+	res := &ReplayResult{Test: test, Output: truncate(out, 1500), Inputs: inputs}
+	var got []string
+	for _, l := range strings.Split(out, "\n") {
+		if strings.HasPrefix(l, "VERIF-RESULT ") {
+			got = strings.Split(strings.TrimPrefix(l, "VERIF-RESULT "), "|")
+		}
+	}
+	if len(got) != len(rs.ResTerms) {
+		res.Note = "the generated test did not run (see output); the model is not replayed"
+		return res
+	}
+	// The deciding step uses no assumption at all: declarations only, the parameters fixed to the
+	// inputs, the results fixed to what the real code returned. Every precondition must be valid
+	// and the postcondition must be unsatisfiable under these values — then the real input/output
+	// pair falsifies the postcondition whatever the other symbols mean.
+	smtLit := func(v string, isBool bool) string {
+		if isBool || !strings.HasPrefix(v, "-") {
+			return v
+		}
+		return "(- " + v[1:] + ")"
+	}
+	var fix strings.Builder
+	for i, pt := range rs.ParamTerms {
+		if v, ok := vals[pt]; ok {
+			fmt.Fprintf(&fix, "(assert (= %s %s))\n", pt, v)
+		} else if rs.ParamBool[i] {
+			fmt.Fprintf(&fix, "(assert (= %s false))\n", pt)
+		} else {
+			fmt.Fprintf(&fix, "(assert (= %s 0))\n", pt)
+		}
+	}
+	for i, rt := range rs.ResTerms {
+		fmt.Fprintf(&fix, "(assert (= %s %s))\n", rt, smtLit(got[i], rs.ResBool[i]))
+	}
+	var hb strings.Builder
+	for _, l := range strings.Split(o.Query, "\n") {
+		if strings.HasPrefix(l, "(assert ") || strings.HasPrefix(l, "(check-sat") || strings.HasPrefix(l, "(get-model") {
+			continue
+		}
+		hb.WriteString(l)
+		hb.WriteByte('\n')
+	}
+	head := hb.String()
+	res.Inputs = map[string]any{"parameters": inputs, "real_results": got, "model": "solver model" + candidate}
+	for _, rq := range rs.ReqTerms {
+		r := solve(&Query{Name: "model-replay-pre", Text: head + fix.String() + "(assert (not " + rq + "))\n(check-sat)\n"}, dir, 10, nil)
+		if r.Verdict != "unsat" {
+			res.Note = "the model's inputs are not shown to satisfy the function's precondition: not replayed"
+			return res
+		}
+	}
+	r := solve(&Query{Name: "model-replay", Text: head + fix.String() + "(assert " + o.Cond.S + ")\n(check-sat)\n"}, dir, 20, nil)
+	call := fmt.Sprintf("%s(%s)", rs.FuncName, strings.Join(args, ", "))
+	if r.Verdict == "unsat" {
+		res.Reproduced = true
+		res.Note = fmt.Sprintf("%s on the real code returns %s; the postcondition is unsatisfiable with these inputs and outputs fixed (no assumption used): the real input/output pair violates it", call, strings.Join(got, ", "))
+	} else {
+		res.Note = fmt.Sprintf("%s on the real code returns %s, which is not shown to falsify the postcondition (%s): the model does not replay", call, strings.Join(got, ", "), r.Verdict)
+	}
+	return res
 }
 
 func cmdReplay(args []string) int {
